@@ -14,7 +14,7 @@ import vlib
 HERE = os.path.dirname(os.path.abspath(__file__))
 C02 = os.path.join(os.path.dirname(HERE), "C02")
 sys.path.insert(0, C02)
-import gen, oracle   # noqa: E402  (props/C02)
+import gen, oracle, build_util   # noqa: E402  (props/C02)
 _spec = importlib.util.spec_from_file_location("c02run", os.path.join(C02, "run.py"))
 c02run = importlib.util.module_from_spec(_spec)
 _spec.loader.exec_module(c02run)
@@ -164,7 +164,7 @@ def gen_stepper_run(r):
         k = r.choice([1, 2, cap, cap, cap + 1, max(1, cap - 1), n]) if not last else r.choice([1, 1, 2])
         k = max(1, min(k, 24))
         en = r.choice([1.0, 10.0, 10.0, 100.0])
-        evs.append((r.randint(0, 10 ** 6), r.choice([6, 25, 60, 200]) if not last else 400, [(0, en)] * k))
+        evs.append((r.randint(0, 10 ** 6), r.choice([6, 25, 60, 120]) if not last else 250, [(0, en)] * k))
     return {"n": n, "cap": cap, "order": order, "sf8": sf8, "events": evs}
 
 
@@ -176,7 +176,8 @@ def stepper_text(run):
 
 
 def run_stepper(ctx, nruns):
-    exe = ctx.compile_harness([os.path.join(HERE, "harness", "stepper.cc")], "stepper", libs=LIBS, test_includes=True)
+    exe = build_util.compile_with_repo_sources(ctx, [os.path.join(HERE, "harness", "stepper.cc")], "stepper",
+                                               build_util.STEPPER_TUS, LIBS)
     r = ctx.rng
     runs = [gen_stepper_run(r) for _ in range(nruns)]
     rc, out = ctx.run_harness(exe, input="".join(stepper_text(x) for x in runs), env=HENV, timeout=900)
@@ -266,20 +267,25 @@ def run(ctx):
                         "no ASan run in this check (thorough tier of the design)"]
     proofs_ok = ctx.coq_prove("Properties_C16.v")
     ok, log = ctx.coq_build(["C16/Allocator.vo", "C02/Run.vo"])
+    if not ok:      # the shared coq/ tree may be mid-edit by another builder: one retry
+        time.sleep(3)
+        ok, log = ctx.coq_build(["C16/Allocator.vo", "C02/Run.vo"])
     if not ok:
         ctx.violation("model-broken", "the executable model no longer compiles", {"log": log[-2000:]}, no_input=True)
         return
+    scale = float(os.environ.get("VERIF_SCALE", "1") or 1)   # mutation self-tests use a smaller run
     t = time.time()
-    na = run_allocator(ctx, 500 if quick else 6000)
+    na = run_allocator(ctx, int((500 if quick else 6000) * scale))
     ctx.log("allocator differential: %d cases in %.1fs" % (na, time.time() - t))
     c02run.MODEL_EXE["exe"] = ctx.ocaml_extract("C02/Extract.v", os.path.join(C02, "harness", "driver.ml"), "c02model_exe", "c02model")
     ctx.build_libs(["testcel_celeritas"])
-    exe = ctx.compile_harness([os.path.join(C02, "harness", "trackinit.cc")], "trackinit", libs=LIBS, test_includes=True)
+    exe = build_util.compile_with_repo_sources(ctx, [os.path.join(C02, "harness", "trackinit.cc")], "trackinit",
+                                               build_util.TRACK_TUS, LIBS)
     t = time.time()
-    nl, nlerr = run_starved_oplists(ctx, exe, 500 if quick else 8000)
+    nl, nlerr = run_starved_oplists(ctx, exe, int((500 if quick else 8000) * scale))
     ctx.log("starved op lists: %d (%d with capacity errors) in %.1fs" % (nl, nlerr, time.time() - t))
     t = time.time()
-    ns, nserr, nfail = run_stepper(ctx, 150 if quick else 2500)
+    ns, nserr, nfail = run_stepper(ctx, int((110 if quick else 2500) * scale))
     ctx.log("starved Stepper runs: %d, %d RuntimeErrors, %d failed interactions in %.1fs" % (ns, nserr, nfail, time.time() - t))
     ctx.coverage["stepper_runtime_errors"] = nserr
     ctx.coverage["stepper_failed_interactions"] = nfail
